@@ -192,8 +192,76 @@ func pokeV2Map(m map[string]types2.AttributeValue, p *picker) {
 	}
 }
 
+// appendV1 / appendV2 append to every selected byte slice of a value without
+// keeping the result: the bytes land in the slice's spare capacity, which the
+// caller owns only if the library handed out exactly-sized copies.
+var appendTail = []byte{0xEE, 0xEE, 0xEE, 0xEE, 0xEE, 0xEE, 0xEE, 0xEE}
+
+func appendV1(av *ddb1.AttributeValue, p *picker) {
+	if av == nil {
+		return
+	}
+	if av.B != nil && p.pick() {
+		_ = append(av.B, appendTail...)
+	}
+	for _, b := range av.BS {
+		if p.pick() {
+			_ = append(b, appendTail...)
+		}
+	}
+	for _, e := range av.L {
+		appendV1(e, p)
+	}
+	for _, k := range sortedKeysV1(av.M) {
+		appendV1(av.M[k], p)
+	}
+}
+
+func sortedKeysV1(m map[string]*ddb1.AttributeValue) []string {
+	keys := make([]string, 0, len(m))
+	for k := range m {
+		keys = append(keys, k)
+	}
+	sort.Strings(keys)
+	return keys
+}
+
+func appendV2(av types2.AttributeValue, p *picker) {
+	switch x := av.(type) {
+	case *types2.AttributeValueMemberB:
+		if p.pick() {
+			_ = append(x.Value, appendTail...)
+		}
+	case *types2.AttributeValueMemberBS:
+		for _, b := range x.Value {
+			if p.pick() {
+				_ = append(b, appendTail...)
+			}
+		}
+	case *types2.AttributeValueMemberL:
+		for _, e := range x.Value {
+			appendV2(e, p)
+		}
+	case *types2.AttributeValueMemberM:
+		keys := make([]string, 0, len(x.Value))
+		for k := range x.Value {
+			keys = append(keys, k)
+		}
+		sort.Strings(keys)
+		for _, k := range keys {
+			appendV2(x.Value[k], p)
+		}
+	}
+}
+
+// c14Neighbour: the item written after the output was handed out.
+func c14Neighbour() model.Item {
+	return model.Item{"pk": model.Str("neighbour"), "b": model.Bin([]byte("cccc")), "bs": model.BinSet([]byte("dddd"), []byte("ee")),
+		"doc": model.Map(map[string]model.AV{"raw": model.Bin([]byte("ffffffff"))})}
+}
+
 var c14Scenarios = []string{"input-after-put", "output-of-get", "output-of-scan", "output-of-query", "update-values-and-output", "kept-output-vs-later-write", "batch-write-input", "delete-old-output", "condition-failure-item",
-	"last-evaluated-key", "upsert-key-input", "native-updater-values"}
+	"last-evaluated-key", "upsert-key-input", "native-updater-values", "append-to-output-after-later-write", "native-upsert-key-input"}
 
 // c14BinTable: a table whose key attributes are binary (mutable byte slices).
 func c14BinTable() *model.Schema {
@@ -370,6 +438,53 @@ func runC14(c c14Case, pokes *int) (fl *failure) {
 			pokeV1Map(keyIn, p)
 			pokeV1Map(vals, p)
 			return differs("after mutating the key and values of an upserting UpdateItem", read(), exp)
+		case "append-to-output-after-later-write":
+			// three rounds, so that a buffer boundary inside the library cannot hide the effect
+			for round := 0; round < 3; round++ {
+				out, err := cl.GetItem(&ddb1.GetItemInput{TableName: aws1.String("tbl"), Key: drv.ToV1Item(key)})
+				if err != nil {
+					return nil
+				}
+				nb := c14Neighbour()
+				if _, err := cl.PutItem(&ddb1.PutItemInput{TableName: aws1.String("tbl"), Item: drv.ToV1Item(nb)}); err != nil {
+					return nil
+				}
+				for _, k := range sortedKeysV1(out.Item) {
+					appendV1(out.Item[k], p)
+				}
+				got, err := cl.GetItem(&ddb1.GetItemInput{TableName: aws1.String("tbl"), Key: drv.ToV1Item(model.Item{"pk": model.Str("neighbour")})})
+				if err != nil {
+					return newFail("read failed", "%v", err)
+				}
+				if f := differs("an item written after the output was handed out, after appending to the output's byte slices", drv.FromV1Item(got.Item), nb); f != nil {
+					return f
+				}
+				if f := differs("after appending to a GetItem output", get(), want); f != nil {
+					return f
+				}
+			}
+			return nil
+		case "native-upsert-key-input":
+			d.Apply(model.Op{Kind: "CreateTable", Schema: c14BinTable()})
+			cl.ActivateNativeInterpreter()
+			cl.GetNativeInterpreter().AddUpdater("tblb", "SET st = :s, doc = :d", c14StoringUpdater)
+			k := model.Item{"pk": model.Bin([]byte{9, 9}), "sk": model.Bin([]byte{7})}
+			keyIn := drv.ToV1Item(k)
+			vals := drv.ToV1Item(c14UpdaterValues)
+			if _, err := cl.UpdateItem(&ddb1.UpdateItemInput{TableName: aws1.String("tblb"), Key: keyIn, UpdateExpression: aws1.String("SET st = :s, doc = :d"), ExpressionAttributeValues: vals}); err != nil {
+				return nil
+			}
+			read := func() model.Item {
+				out, err := cl.GetItem(&ddb1.GetItemInput{TableName: aws1.String("tblb"), Key: drv.ToV1Item(k)})
+				if err != nil {
+					return model.Item{"error": model.Str(err.Error())}
+				}
+				return drv.FromV1Item(out.Item)
+			}
+			exp := read()
+			pokeV1Map(keyIn, p)
+			pokeV1Map(vals, p)
+			return differs("after mutating the key of an upserting UpdateItem served by a native updater", read(), exp)
 		case "native-updater-values":
 			cl.ActivateNativeInterpreter()
 			cl.GetNativeInterpreter().AddUpdater("tbl", "SET st = :s, doc = :d", c14StoringUpdater)
@@ -528,6 +643,57 @@ func runC14(c c14Case, pokes *int) (fl *failure) {
 		pokeV2Map(keyIn, p)
 		pokeV2Map(vals, p)
 		return differs("after mutating the key and values of an upserting UpdateItem", read(), exp)
+	case "append-to-output-after-later-write":
+		for round := 0; round < 3; round++ {
+			out, err := cl.GetItem(ctx, &ddb2.GetItemInput{TableName: aws.String("tbl"), Key: drv.ToV2Item(key)})
+			if err != nil {
+				return nil
+			}
+			nb := c14Neighbour()
+			if _, err := cl.PutItem(ctx, &ddb2.PutItemInput{TableName: aws.String("tbl"), Item: drv.ToV2Item(nb)}); err != nil {
+				return nil
+			}
+			keys := make([]string, 0, len(out.Item))
+			for k := range out.Item {
+				keys = append(keys, k)
+			}
+			sort.Strings(keys)
+			for _, k := range keys {
+				appendV2(out.Item[k], p)
+			}
+			got, err := cl.GetItem(ctx, &ddb2.GetItemInput{TableName: aws.String("tbl"), Key: drv.ToV2Item(model.Item{"pk": model.Str("neighbour")})})
+			if err != nil {
+				return newFail("read failed", "%v", err)
+			}
+			if f := differs("an item written after the output was handed out, after appending to the output's byte slices", drv.FromV2Item(got.Item), nb); f != nil {
+				return f
+			}
+			if f := differs("after appending to a GetItem output", get(), want); f != nil {
+				return f
+			}
+		}
+		return nil
+	case "native-upsert-key-input":
+		d.Apply(model.Op{Kind: "CreateTable", Schema: c14BinTable()})
+		cl.ActivateNativeInterpreter()
+		cl.GetNativeInterpreter().AddUpdater("tblb", "SET st = :s, doc = :d", c14StoringUpdater)
+		k := model.Item{"pk": model.Bin([]byte{9, 9}), "sk": model.Bin([]byte{7})}
+		keyIn := drv.ToV2Item(k)
+		vals := drv.ToV2Item(c14UpdaterValues)
+		if _, err := cl.UpdateItem(ctx, &ddb2.UpdateItemInput{TableName: aws.String("tblb"), Key: keyIn, UpdateExpression: aws.String("SET st = :s, doc = :d"), ExpressionAttributeValues: vals}); err != nil {
+			return nil
+		}
+		read := func() model.Item {
+			out, err := cl.GetItem(ctx, &ddb2.GetItemInput{TableName: aws.String("tblb"), Key: drv.ToV2Item(k)})
+			if err != nil {
+				return model.Item{"error": model.Str(err.Error())}
+			}
+			return drv.FromV2Item(out.Item)
+		}
+		exp := read()
+		pokeV2Map(keyIn, p)
+		pokeV2Map(vals, p)
+		return differs("after mutating the key of an upserting UpdateItem served by a native updater", read(), exp)
 	case "native-updater-values":
 		cl.ActivateNativeInterpreter()
 		cl.GetNativeInterpreter().AddUpdater("tbl", "SET st = :s, doc = :d", c14StoringUpdater)
@@ -564,7 +730,7 @@ func init() {
 	}
 }
 
-const ruleC14 = "rapid: an item drawn from the full attribute-value generator (nested lists and maps, sets, binaries), a client (SDK v1 / v2), a scenario (mutate the input after PutItem / BatchWriteItem; mutate the output of GetItem / Scan / Query / UpdateItem / DeleteItem ALL_OLD and the UpdateItem values map; keep an output across later writes; mutate the LastEvaluatedKey of a paginated Scan / Query and the ExclusiveStartKey passed in, on a table with binary keys; mutate the key and values of an upserting UpdateItem; mutate the values handed to a registered native updater that stores them) and a poke plan - one generated decision per mutable location of the concrete SDK structure in traversal order (each *string, *bool, byte-slice element, list slot, map entry, set member). Oracle: a read after the pokes equals the deep snapshot taken before them (a kept output equals its own snapshot after later writes), and the interpreter's TRUE / FALSE / UNDEFINED singletons keep their values. Non-trivial = at least one poke performed on a pointer, slice or map location; distinct = hash of (client, scenario, item, mask)."
+const ruleC14 = "rapid: an item drawn from the full attribute-value generator (nested lists and maps, sets, binaries), a client (SDK v1 / v2), a scenario (mutate the input after PutItem / BatchWriteItem; mutate the output of GetItem / Scan / Query / UpdateItem / DeleteItem ALL_OLD and the UpdateItem values map; keep an output across later writes; mutate the LastEvaluatedKey of a paginated Scan / Query and the ExclusiveStartKey passed in, on a table with binary keys; mutate the key and values of an upserting UpdateItem; mutate the values handed to a registered native updater that stores them, and the key of an UpdateItem it upserts; append to the byte slices of a GetItem output after another item has been written) and a poke plan - one generated decision per mutable location of the concrete SDK structure in traversal order (each *string, *bool, byte-slice element, list slot, map entry, set member). Oracle: a read after the pokes equals the deep snapshot taken before them (a kept output equals its own snapshot after later writes), and the interpreter's TRUE / FALSE / UNDEFINED singletons keep their values. Non-trivial = at least one poke performed on a pointer, slice or map location; distinct = hash of (client, scenario, item, mask)."
 
 // TestC14 decides property C14.
 func TestC14(t *testing.T) {
